@@ -53,14 +53,18 @@ pub fn lines_in() -> impl Iterator<Item = String> {
     std::io::stdin().lock().lines().map(|l| l.unwrap())
 }
 
-pub struct Out(std::io::BufWriter<std::io::Stdout>);
+pub struct Out(std::io::BufWriter<std::io::Stdout>, bool);
 impl Out {
     pub fn new() -> Self {
-        Out(std::io::BufWriter::new(std::io::stdout()))
+        // VH_FLUSH=1: flush after every line, so that the output is complete up to the case that kills the process
+        Out(std::io::BufWriter::new(std::io::stdout()), std::env::var("VH_FLUSH").is_ok())
     }
     pub fn line(&mut self, s: &str) {
         self.0.write_all(s.as_bytes()).unwrap();
         self.0.write_all(b"\n").unwrap();
+        if self.1 {
+            self.0.flush().unwrap();
+        }
     }
 }
 
